@@ -34,8 +34,13 @@ def universes():
         dict(mk(4, [[], [], [2], [1, 3]], [1, 2, 3, 1], [UNL, UNL, UNL], [True, True, False], [], [], 'serial', 2),
              tfmt=['pickle', 'json', 'pickle']),
     ]
+    # "twins": five independent tasks of one type told apart only by the value / the type of one parameter
+    us = [dict(u, twins=False) for u in us]
+    us.append(dict(mk(5, [[], [], [], [], []], [1, 1, 1, 1, 1], [UNL], [True], [], [], 'serial', 2), tfmt=['pickle'], twins=True))
     return us
 
+
+TWINS_UI = 4      # 1-based index of the twins universe in universes()
 
 TIERS = {
     'quick': dict(gen='CacheHistory_gen3.cfg', sims=[('CacheHistory_sim3.cfg', 700, 3), ('CacheHistory_sim2.cfg', 120, 2)],
@@ -60,6 +65,8 @@ def sample_histories(cfgname, num, depth, us_file, scratch, seed, parts=4):
                 if p not in seen:
                     seen.add(p)
                     d = json.loads(p)
+                    if d['ui'] == TWINS_UI and any(h['op'] == 'run' and len(h['req']) != 1 for h in d['hist']):
+                        continue     # 1, 1.0 and True are equal in Python: one call must not request two of them
                     out.append((d['ui'] - 1, d['hist']))
     out.sort(key=lambda x: json.dumps(x))
     random.Random(seed).shuffle(out)
